@@ -16,6 +16,7 @@ import (
 	"go/ast"
 	"go/types"
 	"sort"
+	"strings"
 
 	"golang.org/x/tools/go/types/typeutil"
 )
@@ -289,6 +290,19 @@ func (p *Prog) Callers(key string, includeTests bool) []*Func {
 // gates or gate-dominated functions. A function without any caller is dominated only if it is
 // itself a gate.
 func (p *Prog) GateDominated(gates map[string]bool) map[string]bool {
+	ck := strings.Join(sortedKeys(gates), "|")
+	if p.domCache == nil {
+		p.domCache = map[string]map[string]bool{}
+	}
+	if d, ok := p.domCache[ck]; ok {
+		return d
+	}
+	d := p.gateDominated(gates)
+	p.domCache[ck] = d
+	return d
+}
+
+func (p *Prog) gateDominated(gates map[string]bool) map[string]bool {
 	g := p.CG()
 	dom := map[string]bool{}
 	for _, f := range p.FuncSeq {
